@@ -317,6 +317,21 @@ def oracle_loose(t):
     raise Undefined
 
 
+_LT_SORTED = None
+
+
+def lt_balance_sorted():
+    """Gen.ltBalanceSorted as regenerated from value.cc on this run."""
+    global _LT_SORTED
+    if _LT_SORTED is None:
+        try:
+            with open(os.path.join(vflib.LEAN, "LedgerModel", "Gen", "Consts.lean"), encoding="utf-8") as f:
+                _LT_SORTED = "def ltBalanceSorted : Bool := true" in f.read()
+        except OSError:
+            _LT_SORTED = False
+    return _LT_SORTED
+
+
 def order_dependent(t):
     """`<`-family comparison between a balance of >= 2 commodities and a value
     of one of them: value.cc walks the unordered_map and stops at the first
@@ -324,6 +339,8 @@ def order_dependent(t):
     commodities") or answers depends on the hash order.  The model fixes
     insertion order; such cells are excluded from the tie (and reported under
     C19)."""
+    if lt_balance_sorted():
+        return False   # the source walks sorted_amounts: deterministic, compared like any other cell
     if isinstance(t, Node) and t.op in ("<", "<=", ">", ">="):
         a, b = comms_of(t.kids[0]), comms_of(t.kids[1])
         return (a is not None and len(a) >= 2) or (b is not None and len(b) >= 2)
